@@ -3,122 +3,282 @@ From GV Require Import Base.Prelude Incr.Lifecycle.
 
 (* ---------------------------------------------------------------- stream item queue *)
 
+Definition C1 := {| q_eager := true; q_has_cb := true; q_cb_async := true; q_cap := 1 |}.
+Definition C100 := {| q_eager := false; q_has_cb := true; q_cb_async := false; q_cap := 100 |}.
+
 Example ex_abort_running_producer :
-  let c := {| q_eager := true; q_has_cb := true; q_cb_async := true |} in
-  let s := qrun c (qinit c) [QPushFut; QAbort; QAbort; QTick] in
+  let s := qrun C1 (qinit C1) [QPushFut; QAbort; QAbort; QTick] in
   (q_cb_calls s, quiescent s, q_aborted s) = (1%nat, true, true).
 Proof. reflexivity. Qed.
 
 Example ex_finished_source_not_closed_again :
-  let c := {| q_eager := false; q_has_cb := true; q_cb_async := false |} in
-  let s := qrun c (qinit c) [QStart; QPush; QFinish; QTick; QAbort; QTick] in
+  let s := qrun C100 (qinit C100) [QStart; QPush; QFinish; QTick; QAbort; QTick] in
   (q_cb_calls s, quiescent s, q_finished s) = (0%nat, true, true).
 Proof. reflexivity. Qed.
 
+(* the producer parks on the full queue with its end marker; abort releases it without closing the source *)
+Example ex_parked_on_end_marker_released :
+  let s1 := qrun C1 (qinit C1) [QPush; QTick; QFinish; QTick] in
+  let s2 := qrun C1 s1 [QAbort; QTick] in
+  (q_prod s1, q_prod s2, q_cb_calls s2, quiescent s2) = (PParked, PDone, 0%nat, true).
+Proof. reflexivity. Qed.
+
+(* ... and parked on the failure entry: the first abort happened in _run, a later abort releases it *)
+Example ex_parked_on_failure_entry_released :
+  let s1 := qrun C1 (qinit C1) [QPush; QTick; QFail; QTick] in
+  let s2 := qrun C1 s1 [QAbort; QTick] in
+  (q_prod s1, q_cb_calls s1, q_prod s2, q_cb_calls s2, quiescent s2) = (PParked, 1%nat, PDone, 1%nat, true).
+Proof. reflexivity. Qed.
+
+(* a producer blocked in push() on the full queue is cancelled by abort *)
+Example ex_blocked_push_cancelled :
+  let s1 := qrun C1 (qinit C1) [QPush; QTick; QPush; QTick] in
+  let s2 := qrun C1 s1 [QAbort; QTick] in
+  (q_prod s1, q_prod s2, q_cb_calls s2, quiescent s2) = (PBlocked, PDone, 1%nat, true).
+Proof. reflexivity. Qed.
+
 Example ex_cancellation_turned_into_failure_closes_once :
-  let c := {| q_eager := true; q_has_cb := true; q_cb_async := true |} in
-  let s := qrun c (qinit c) [QAbort; QFailCancelled; QTick] in
+  let s := qrun C1 (qinit C1) [QAbort; QFailCancelled; QTick] in
   (q_cb_calls s, quiescent s, q_aborted s) = (1%nat, true, true).
 Proof. reflexivity. Qed.
 
 Example ex_failure_waits_for_earlier_items :
-  let c := {| q_eager := true; q_has_cb := true; q_cb_async := false |} in
-  let s1 := qrun c (qinit c) [QPushFut; QFail; QTick] in
-  let s2 := qrun c s1 [QItemSettle; QTick; QAbort; QTick] in
+  let s1 := qrun C1 (qinit C1) [QPushFut; QFail; QTick] in
+  let s2 := qrun C1 s1 [QItemSettle; QTick; QAbort; QTick] in
   (q_cb_calls s1, q_aborted s1, q_cb_calls s2, q_aborted s2, quiescent s2) = (0%nat, false, 1%nat, true, true).
 Proof. reflexivity. Qed.
 
-Definition qinv (c : qconf) (s : qstate) : Prop :=
-  q_cb_calls s = (if q_cleaned s && q_has_cb c then 1%nat else 0%nat) /\
-  (q_finished s = true -> q_cleaned s = false /\ q_due s <> DCleanup /\ q_prod s = PDone) /\
-  (q_aborted s = true -> q_finished s = false -> q_cleaned s = true \/ q_due s = DCleanup) /\
-  (q_cleaned s = true -> q_aborted s = true) /\
-  (q_due s = DCleanup -> q_aborted s = true) /\
-  (q_prod s = PRun -> q_cancel_req s = false -> q_aborted s = false).
+Definition is_final (p : prod) : bool := match p with PDone | PParked => true | _ => false end.
+Definition is_prod (p : prod) : bool := match p with PRun | PBlocked => true | _ => false end.
+Definition is_cleanup (d : due) : bool := match d with DCleanup => true | _ => false end.
 
-Ltac qcrush :=
-  cbn in *; repeat split; intros; subst; cbn in *;
-  try discriminate; try congruence; auto;
-  try (left; reflexivity); try (right; reflexivity); try lia.
+(* control part of the invariant, as a boolean function of the finite control fields *)
+Definition due_none (d : due) : bool := match d with DNone => true | _ => false end.
+Definition is_settle (d : due) : bool := match d with DSettle => true | _ => false end.
+Definition is_parked (p : prod) : bool := match p with PParked => true | _ => false end.
+Definition is_failwait (p : prod) : bool := match p with PFailWait => true | _ => false end.
 
-Lemma qinv_init c : qinv c (qinit c).
-Proof. unfold qinv, qinit. destruct (q_eager c); qcrush. Qed.
+Definition qinvb (s : qstate) : bool :=
+  implb (q_finished s) (negb (q_cleaned s) && negb (is_cleanup (q_due s)) && is_final (q_prod s)) &&
+  implb (q_aborted s && negb (q_finished s)) (q_cleaned s || is_cleanup (q_due s)) &&
+  implb (q_cleaned s) (q_aborted s) &&
+  implb (is_cleanup (q_due s)) (q_aborted s) &&
+  implb (is_prod (q_prod s) && negb (q_cancel_req s)) (negb (q_aborted s)) &&
+  implb (is_parked (q_prod s)) (q_parked s) &&
+  implb (q_pcancelled s) (q_aborted s) &&
+  implb (q_cancel_req s) (q_aborted s) &&
+  implb (negb (q_aborted s)) (due_none (q_due s)) &&
+  (* the abort has dealt with the pending item futures *)
+  implb (q_aborted s) (Nat.eqb (q_pending s) 0 || q_pend_cancelled s || negb (due_none (q_due s))) &&
+  implb (q_parked s) (is_final (q_prod s)) &&
+  implb (is_settle (q_due s)) (is_final (q_prod s)) &&
+  implb (is_parked (q_prod s) && q_pcancelled s) (q_cancel_req s || is_cleanup (q_due s)) &&
+  implb (is_failwait (q_prod s) && q_pcancelled s) (is_cleanup (q_due s)) &&
+  implb (is_prod (q_prod s) && q_cancel_req s) (is_cleanup (q_due s)) &&
+  implb (q_pend_cancelled s) (q_aborted s) &&
+  implb (is_failwait (q_prod s) && q_aborted s) (q_pcancelled s) &&
+  implb (q_cancel_req s) (q_pcancelled s).
 
-Lemma qinv_call_cb c s : qinv c s -> q_aborted s = true -> q_finished s = false -> qinv c (call_cb c s).
+(* counter part *)
+Definition qinvc (c : qconf) (s : qstate) : Prop :=
+  q_cb_calls s = (if q_cleaned s && q_has_cb c then 1%nat else 0%nat).
+
+Definition qinv (c : qconf) (s : qstate) : Prop := qinvc c s /\ qinvb s = true.
+
+Ltac bsolve := intros H; vm_compute in H; first [discriminate H | vm_compute; reflexivity].
+
+Lemma b_settle_cancel s : qinvb s = true -> qinvb (settle_cancel s) = true.
 Proof.
-  destruct s as [p cr ab fi n pc cl k d]. unfold qinv, call_cb; cbn.
-  intros (H1 & H2 & H3 & H4 & H5 & H6) Ha Hf. subst.
-  destruct cl; cbn; [qcrush; tauto|].
-  destruct (q_has_cb c); cbn in *; subst; qcrush.
+  destruct s as [p cr pc pk ab fi co e n pdc cl k d]. unfold settle_cancel.
+  destruct n, pdc, p, cr, pc, pk, ab, fi, cl, d; bsolve.
 Qed.
 
-Lemma qinv_settle c s : qinv c s -> qinv c (settle c s).
+
+
+Lemma b_settle_fail c s : qinvb s = true -> qinvb (settle_fail c s) = true.
 Proof.
-  destruct s as [p cr ab fi n pc cl k d]. destruct c as [eg hc ca].
-  unfold qinv. cbn [q_cb_calls q_cleaned q_has_cb q_finished q_due q_prod q_aborted q_cancel_req].
-  intros (H1 & H2 & H3 & H4 & H5 & H6).
-  destruct p, cr, pc, n, d, cl, hc, fi, ab;
-    try (exfalso; (destruct H2 as (? & ? & ?); [reflexivity|]); congruence);
-    try (exfalso; specialize (H4 eq_refl); congruence);
-    try (exfalso; specialize (H5 eq_refl); congruence);
-    try (exfalso; specialize (H6 eq_refl eq_refl); congruence);
-    try (exfalso; destruct (H3 eq_refl eq_refl); congruence);
-    cbn in *; subst; repeat split; intros; try discriminate; try congruence; auto.
+  destruct s as [p cr pc pk ab fi co e n pdc cl k d]. unfold settle_fail.
+  cbn [q_prod q_pending].
+  destruct p; try (intros H; exact H).
+  destruct n; try (intros H; exact H).
+  generalize (has_room c {| q_prod := PFailWait; q_cancel_req := cr; q_pcancelled := pc; q_parked := pk;
+     q_aborted := ab; q_finished := fi; q_consuming := co; q_entries := e; q_pending := 0;
+     q_pend_cancelled := pdc; q_cleaned := cl; q_cb_calls := k; q_due := d |}).
+  intros r. destruct c as [eg hc ca cap].
+  destruct r, pdc, cl, cr, pc, pk, ab, fi, d, hc; bsolve.
 Qed.
 
-Lemma qinv_abort c s : qinv c s -> qinv c (fst (do_qabort c s)).
+Lemma b_settle_due c s : qinvb s = true -> qinvb (settle_due c s) = true.
 Proof.
-  intros H. destruct (q_aborted s) eqn:Ea.
-  { unfold do_qabort. rewrite Ea. exact H. }
-  destruct s as [p cr ab fi n pc cl k d]. cbn in Ea. subst ab. destruct c as [eg hc ca].
-  unfold qinv in H. cbn [q_cb_calls q_cleaned q_has_cb q_finished q_due q_prod q_aborted q_cancel_req] in H.
-  destruct H as (H1 & H2 & H3 & H4 & H5 & H6).
-  destruct p, cr, n, d, cl, hc, fi;
-    try (exfalso; (destruct H2 as (? & ? & ?); [reflexivity|]); congruence);
-    try (exfalso; specialize (H4 eq_refl); congruence);
-    try (exfalso; specialize (H5 eq_refl); congruence);
-    unfold qinv; cbn in *; subst; repeat split; intros; try discriminate; try congruence; auto.
+  destruct s as [p cr pc pk ab fi co e n pdc cl k d]. unfold settle_due, call_cb, running.
+  cbn [q_due q_prod q_cleaned].
+  destruct d; try (intros H; exact H);
+    destruct n, pdc, p, cr, pc, pk, ab, fi, cl; bsolve.
+Qed.
+
+Lemma b_settle_queue c s : qinvb s = true -> qinvb (settle_queue c s) = true.
+Proof.
+  destruct s as [p cr pc pk ab fi co e n pdc cl k d]. unfold settle_queue.
+  cbn [q_prod q_consuming q_entries q_pending].
+  set (room := (Nat.eqb (q_cap c) 0 || _)). clearbody room.
+  destruct p; try (destruct n, pdc, cr, pc, pk, ab, fi, cl, d; bsolve); destruct room; try (intros H; exact H);
+    destruct n, pdc, cr, pc, pk, ab, fi, cl, d; bsolve.
+Qed.
+
+Lemma b_settle c s : qinvb s = true -> qinvb (settle c s) = true.
+Proof. intros H. unfold settle. apply b_settle_queue, b_settle_due, b_settle_fail, b_settle_cancel, H. Qed.
+
+Lemma b_abort c s : qinvb s = true -> qinvb (fst (do_qabort c s)) = true.
+Proof.
+  destruct s as [p cr pc pk ab fi co e n pdc cl k d]. unfold do_qabort, call_cb, running.
+  cbn [q_prod q_parked q_pcancelled q_aborted q_finished q_pending q_cancel_req q_due q_cleaned].
+  destruct n; cbn [Nat.eqb negb]; destruct pdc, p, cr, pc, pk, ab, fi, cl, d; bsolve.
+Qed.
+
+Lemma b_push c s f : producing s = true -> qinvb s = true -> qinvb (do_push c s f) = true.
+Proof.
+  destruct s as [p cr pc pk ab fi co e n pdc cl k d]. unfold do_push, producing.
+  cbn [q_prod q_cancel_req].
+  destruct p; try discriminate. destruct cr; try discriminate. intros _.
+  destruct (has_room c _), f, n, pdc, pc, pk, ab, fi, cl, d; bsolve.
+Qed.
+
+Lemma b_step c s e : qinvb s = true -> qinvb (fst (qstep c s e)) = true.
+Proof.
+  intros H. unfold qstep. destruct (applicable s e) eqn:A; cbn [negb]; [|exact H].
+  destruct e; cbn [fst].
+  - (* QStart *) clear A. destruct s as [p cr pc pk ab fi co e n pdc cl k d]. revert H.
+    destruct n, pdc, p, cr, pc, pk, ab, fi, cl, d; bsolve.
+  - cbn in A. apply b_push; auto.
+  - cbn in A. apply b_push; auto.
+  - (* QItemSettle *) destruct s as [p cr pc pk ab fi co e n pdc cl k d]. revert A H.
+    unfold applicable. cbn [q_pending q_pend_cancelled].
+    destruct n as [|[|n]]; try discriminate; (destruct pdc; try discriminate; intros _;
+      destruct p, cr, pc, pk, ab, fi, cl, d; bsolve).
+  - (* QFinish *) destruct s as [p cr pc pk ab fi co e n pdc cl k d]. revert A H.
+    unfold applicable, producing. cbn [q_prod q_cancel_req].
+    destruct p; try discriminate. destruct cr; try discriminate. intros _.
+    generalize (has_room c {| q_prod := PRun; q_cancel_req := false; q_pcancelled := pc; q_parked := pk;
+     q_aborted := ab; q_finished := fi; q_consuming := co; q_entries := e; q_pending := n;
+     q_pend_cancelled := pdc; q_cleaned := cl; q_cb_calls := k; q_due := d |}). intros r.
+    destruct r, n, pdc, pc, pk, ab, fi, cl, d; bsolve.
+  - (* QFail *) destruct s as [p cr pc pk ab fi co e n pdc cl k d]. revert A H.
+    unfold applicable, producing. cbn [q_prod q_cancel_req].
+    destruct p; try discriminate. destruct cr; try discriminate. intros _.
+    destruct n, pdc, pc, pk, ab, fi, cl, d; bsolve.
+  - (* QFailCancelled *) destruct s as [p cr pc pk ab fi co e n pdc cl k d]. revert A H.
+    unfold applicable. cbn [q_prod q_cancel_req].
+    destruct p; try discriminate; (destruct cr; try discriminate; intros _;
+    destruct n, pdc, pc, pk, ab, fi, cl, d; bsolve).
+  - apply b_abort, H.
+  - apply b_settle, H.
+  - (* QDrain *) destruct s as [p cr pc pk ab fi co e n pdc cl k d]. exact H.
+Qed.
+
+Definition cbnew (c : qconf) (s s' : qstate) : Prop :=
+  (q_cleaned s' = q_cleaned s /\ q_cb_calls s' = q_cb_calls s) \/
+  (q_cleaned s = false /\ q_cleaned s' = true /\
+   q_cb_calls s' = if q_has_cb c then S (q_cb_calls s) else q_cb_calls s).
+
+Lemma cbnew_refl c s : cbnew c s s.
+Proof. left; split; reflexivity. Qed.
+
+Lemma cbnew_trans c s1 s2 s3 : cbnew c s1 s2 -> cbnew c s2 s3 -> cbnew c s1 s3.
+Proof.
+  unfold cbnew. intros [[A B]|(A & B & C)] [[D E]|(D & E & F)].
+  - left. split; congruence.
+  - right. repeat split; try congruence. rewrite F, B. reflexivity.
+  - right. repeat split; congruence.
+  - congruence.
+Qed.
+
+Lemma v_call_cb c s : cbnew c s (call_cb c s).
+Proof.
+  unfold call_cb. destruct (q_cleaned s) eqn:E; [apply cbnew_refl|].
+  right. cbn. repeat split; auto.
+Qed.
+
+Lemma v_same c s s' : q_cleaned s' = q_cleaned s -> q_cb_calls s' = q_cb_calls s -> cbnew c s s'.
+Proof. left; split; assumption. Qed.
+
+Lemma v_put_final c r s : cbnew c s (put_final r s).
+Proof. unfold put_final. destruct r; apply v_same; reflexivity. Qed.
+
+Lemma v_settle_cancel c s : cbnew c s (settle_cancel s).
+Proof. apply v_same; reflexivity. Qed.
+
+Lemma v_settle_fail c s : cbnew c s (settle_fail c s).
+Proof.
+  unfold settle_fail. destruct (q_prod s); try apply cbnew_refl.
+  destruct (q_pending s); try apply cbnew_refl.
+  eapply cbnew_trans; [|apply v_put_final].
+  eapply cbnew_trans; [|apply v_call_cb]. apply v_same; reflexivity.
+Qed.
+
+Lemma v_settle_due c s : cbnew c s (settle_due c s).
+Proof.
+  unfold settle_due. destruct (q_due s); try apply cbnew_refl.
+  - eapply cbnew_trans; [|apply v_call_cb]. apply v_same; reflexivity.
+  - apply v_same; reflexivity.
+Qed.
+
+Lemma v_settle_queue c s : cbnew c s (settle_queue c s).
+Proof.
+  unfold settle_queue. destruct (q_prod s); try (apply v_same; reflexivity);
+    destruct (Nat.eqb (q_cap c) 0 || _); try apply cbnew_refl; apply v_same; reflexivity.
+Qed.
+
+Lemma v_settle c s : cbnew c s (settle c s).
+Proof.
+  unfold settle.
+  eapply cbnew_trans; [|apply v_settle_queue].
+  eapply cbnew_trans; [|apply v_settle_due].
+  eapply cbnew_trans; [|apply v_settle_fail]. apply v_settle_cancel.
+Qed.
+
+Lemma v_abort c s : cbnew c s (fst (do_qabort c s)).
+Proof.
+  unfold do_qabort.
+  destruct (q_aborted s); [apply v_same; reflexivity|].
+  destruct (q_finished s).
+  - destruct (_ && _); apply v_same; reflexivity.
+  - destruct (negb (running s) && _); cbn [fst].
+    + eapply cbnew_trans; [|apply v_call_cb]. apply v_same; reflexivity.
+    + apply v_same; reflexivity.
+Qed.
+
+Lemma v_push c s f : cbnew c s (do_push c s f).
+Proof. unfold do_push. destruct (has_room c s); apply v_same; reflexivity. Qed.
+
+Lemma v_step c s e : cbnew c s (fst (qstep c s e)).
+Proof.
+  unfold qstep. destruct (negb (applicable s e)); [apply cbnew_refl|].
+  destruct e; cbn [fst]; try (apply v_same; reflexivity).
+  - apply v_push.
+  - apply v_push.
+  - eapply cbnew_trans; [|apply v_put_final]. apply v_same; reflexivity.
+  - apply v_abort.
+  - apply v_settle.
+Qed.
+
+Lemma c_of_cbnew c s s' : qinvc c s -> cbnew c s s' -> qinvc c s'.
+Proof.
+  unfold qinvc, cbnew. intros H [[A B]|(A & B & C)].
+  - rewrite A, B. exact H.
+  - rewrite B, C, H, A. cbn. destruct (q_has_cb c); reflexivity.
 Qed.
 
 Lemma qinv_step c s e : qinv c s -> qinv c (fst (qstep c s e)).
-Proof.
-  intros H. unfold qstep. destruct (applicable s e) eqn:A; cbn; [|exact H].
-  destruct e; cbn.
-  - (* QStart *) destruct s as [p cr ab fi n pc cl k d]. unfold qinv in *; cbn in *.
-    pose proof H as K. destruct H as (H1 & H2 & H3 & H4 & H5 & H6).
-    destruct p; cbn; try exact K.
-    destruct ab eqn:Eab; cbn; [exact K|].
-    assert (Hf : fi = false).
-    { destruct fi; auto. destruct (H2 eq_refl) as (? & ? & ?). discriminate. }
-    subst fi. repeat split; intros; auto; try discriminate; try congruence.
-  - (* QPushFut *) destruct s as [p cr ab fi n pc cl k d]. unfold qinv in *; cbn in *. exact H.
-  - exact H.
-  - destruct s as [p cr ab fi n pc cl k d]. unfold qinv in *; cbn in *. exact H.
-  - (* QFinish *) destruct s as [p cr ab fi n pc cl k d]. unfold qinv, applicable, producing in *; cbn in *.
-    destruct H as (H1 & H2 & H3 & H4 & H5 & H6).
-    destruct p; try discriminate. destruct cr; try discriminate.
-    specialize (H6 eq_refl eq_refl). subst.
-    repeat split; intros; auto; try discriminate.
-    + destruct cl; auto. specialize (H4 eq_refl). discriminate.
-    + intro E. specialize (H5 E). discriminate.
-  - (* QFail *) destruct s as [p cr ab fi n pc cl k d]. unfold qinv, applicable, producing in *; cbn in *.
-    destruct H as (H1 & H2 & H3 & H4 & H5 & H6).
-    destruct p; try discriminate.
-    assert (Hf : fi = false).
-    { destruct fi; auto. destruct (H2 eq_refl) as (? & ? & ?). discriminate. }
-    subst fi. repeat split; intros; auto; try discriminate.
-  - (* QFailCancelled *) destruct s as [p cr ab fi n pc cl k d]. unfold qinv, applicable in *; cbn in *.
-    destruct H as (H1 & H2 & H3 & H4 & H5 & H6).
-    destruct p; try discriminate.
-    assert (Hf : fi = false).
-    { destruct fi; auto. destruct (H2 eq_refl) as (? & ? & ?). discriminate. }
-    subst fi. repeat split; intros; auto; try discriminate.
-  - apply qinv_abort, H.
-  - apply qinv_settle, H.
-Qed.
+Proof. intros [A B]. split; [eapply c_of_cbnew; [exact A|apply v_step]|apply b_step, B]. Qed.
+
+Lemma qinv_init c : qinv c (qinit c).
+Proof. split; [reflexivity|]. unfold qinit. destruct (q_eager c); reflexivity. Qed.
 
 Lemma qinv_run c es : forall s, qinv c s -> qinv c (qrun c s es).
 Proof. induction es as [|e es IH]; cbn; intros s H; auto. apply IH, qinv_step, H. Qed.
+
+Lemma qinv_settle c s : qinv c s -> qinv c (settle c s).
+Proof. intros [A B]. split; [eapply c_of_cbnew; [exact A|apply v_settle]|apply b_settle, B]. Qed.
 
 (* on_abort (the close of the source) is called at most once on every trace *)
 Lemma cb_at_most_once c es : (q_cb_calls (qrun c (qinit c) es) <= 1)%nat.
@@ -127,48 +287,90 @@ Proof.
   destruct (_ && _); lia.
 Qed.
 
-(* after the loop has settled nothing of the continuation is left *)
-Lemma settle_due c s : q_due (settle c s) = DNone.
+Lemma settle_due_none c s : q_due (settle c s) = DNone.
 Proof.
-  destruct s as [p cr ab fi n pc cl k d]. unfold settle, call_cb; cbn.
-  destruct p, cr, pc, n, d, cl; cbn; reflexivity.
+  assert (Q : forall s, q_due (settle_queue c s) = q_due s).
+  { intros t. unfold settle_queue. destruct (q_prod t); try reflexivity;
+      destruct (Nat.eqb (q_cap c) 0 || _); reflexivity. }
+  unfold settle. rewrite Q. unfold settle_due.
+  destruct (q_due (settle_fail c (settle_cancel s))) eqn:E; auto.
+  unfold call_cb. cbn. destruct (q_cleaned _); reflexivity.
 Qed.
 
-(* exactly once after a stop (abort or failure) once the loop has settled; never when the source
-   finished by itself *)
 Lemma cb_exactly_once c es :
   let s := settle c (qrun c (qinit c) es) in
   (stopped_early s = true -> q_cb_calls s = if q_has_cb c then 1%nat else 0%nat) /\
   (q_finished s = true -> q_cb_calls s = 0%nat).
 Proof.
   cbn. pose proof (qinv_settle c _ (qinv_run c es _ (qinv_init c))) as H.
-  pose proof (settle_due c (qrun c (qinit c) es)) as D.
+  pose proof (settle_due_none c (qrun c (qinit c) es)) as D.
   set (s := settle c (qrun c (qinit c) es)) in *.
-  destruct H as (H1 & H2 & H3 & H4 & H5 & H6). unfold stopped_early. split.
-  - intros E. apply andb_true_iff in E as [Ea Ef]. apply negb_true_iff in Ef.
-    destruct (H3 Ea Ef) as [Hc|Hd]; [|congruence]. rewrite H1, Hc. cbn. reflexivity.
-  - intros Ef. destruct (H2 Ef) as (Hc & _). rewrite H1, Hc. reflexivity.
+  destruct H as (H1 & H2). unfold stopped_early, qinvc in *. rewrite H1.
+  unfold qinvb in H2. rewrite D in H2. cbn in H2.
+  destruct (q_finished s), (q_aborted s), (q_cleaned s); cbn in *; split; intros; try discriminate; auto;
+    try (repeat (apply andb_true_iff in H2 as [H2 ?]); discriminate).
 Qed.
 
-(* model-level quiescence: after an effective abort and one settling of the loop the producer task is
-   finished, no item future is pending and no cleanup continuation is left *)
-Lemma abort_then_settle_quiescent_gen c s :
-  (q_finished s = true -> q_prod s = PDone) ->
-  q_aborted s = false -> quiescent (settle c (fst (do_qabort c s))) = true.
+(* ---- model-level quiescence *)
+Definition g0 (t : qstate) : bool :=
+  (negb (running t) || q_cancel_req t || is_cleanup (q_due t)) &&
+  (Nat.eqb (q_pending t) 0 || q_pend_cancelled t || negb (due_none (q_due t))).
+Definition g1 (t : qstate) : bool :=
+  (negb (running t) || is_cleanup (q_due t)) && (Nat.eqb (q_pending t) 0 || negb (due_none (q_due t))).
+Definition g2 (t : qstate) : bool :=
+  negb (running t) && Nat.eqb (q_pending t) 0 && due_none (q_due t).
+
+Ltac gsolve := intros H; vm_compute in H; first [discriminate H | vm_compute; reflexivity].
+
+Lemma g_cancel t : g0 t = true -> g1 (settle_cancel t) = true.
 Proof.
-  destruct s as [p cr ab fi n pc cl k d]. cbn. intros Hf ->. destruct c as [eg hc ca].
-  destruct fi; [rewrite (Hf eq_refl)|]; destruct p, n, cl, d, cr, pc, hc; reflexivity.
+  destruct t as [p cr pc pk ab fi co e n pdc cl k d]. unfold g0, g1, settle_cancel, running.
+  destruct n, pdc, p, cr, d; gsolve.
 Qed.
 
-(* on every trace: the first effective abort followed by one settling of the loop leaves nothing of the
-   queue running *)
+Lemma g_fail c t : g1 t = true -> g1 (settle_fail c t) = true.
+Proof.
+  destruct t as [p cr pc pk ab fi co e n pdc cl k d]. unfold settle_fail. cbn [q_prod q_pending].
+  destruct p; try (intros H; exact H). destruct n; try (intros H; exact H).
+  generalize (has_room c {| q_prod := PFailWait; q_cancel_req := cr; q_pcancelled := pc; q_parked := pk;
+     q_aborted := ab; q_finished := fi; q_consuming := co; q_entries := e; q_pending := 0;
+     q_pend_cancelled := pdc; q_cleaned := cl; q_cb_calls := k; q_due := d |}).
+  intros r. destruct c as [eg hc ca cap]. destruct r, cl, d; gsolve.
+Qed.
+
+Lemma g_due c t : g1 t = true -> g2 (settle_due c t) = true.
+Proof.
+  destruct t as [p cr pc pk ab fi co e n pdc cl k d]. destruct c as [eg hc ca cap].
+  unfold g1, g2, settle_due, call_cb, running. destruct n, p, d, cl; gsolve.
+Qed.
+
+Lemma g_queue c t : g2 t = true -> g2 (settle_queue c t) = true.
+Proof.
+  destruct t as [p cr pc pk ab fi co e n pdc cl k d]. unfold g2, settle_queue, running.
+  destruct p; cbn; auto; discriminate.
+Qed.
+
+Lemma g_settle c t : g0 t = true -> quiescent (settle c t) = true.
+Proof.
+  intros H. assert (G : g2 (settle c t) = true).
+  { unfold settle. apply g_queue, g_due, g_fail, g_cancel, H. }
+  unfold g2 in G. unfold quiescent. destruct (q_due (settle c t)); cbn in *;
+    rewrite ?andb_true_r, ?andb_false_r in *; auto.
+Qed.
+
+Lemma g_abort c s : qinvb s = true -> g0 (fst (do_qabort c s)) = true.
+Proof.
+  destruct s as [p cr pc pk ab fi co e n pdc cl k d]. destruct c as [eg hc ca cap].
+  unfold do_qabort, call_cb, running.
+  cbn [q_prod q_parked q_pcancelled q_aborted q_finished q_pending q_cancel_req q_due q_cleaned].
+  destruct n; cbn [Nat.eqb negb]; destruct pdc, p, cr, pc, pk, ab, fi, cl, d; gsolve.
+Qed.
+
+(* in every reachable state, abort() followed by one settling of the loop leaves no producer task,
+   no pending item future and no cleanup continuation *)
 Lemma abort_then_settle_quiescent c es :
-  let s := qrun c (qinit c) es in
-  q_aborted s = false -> quiescent (settle c (fst (do_qabort c s))) = true.
-Proof.
-  cbn. intros Ha. apply abort_then_settle_quiescent_gen; auto.
-  destruct (qinv_run c es _ (qinv_init c)) as (_ & H2 & _). intros Hf. apply (H2 Hf).
-Qed.
+  let s := qrun c (qinit c) es in quiescent (settle c (fst (do_qabort c s))) = true.
+Proof. cbn. apply g_settle, g_abort. apply (qinv_run c es _ (qinv_init c)). Qed.
 
 (* ---------------------------------------------------------------- work-finished hook *)
 
